@@ -138,8 +138,10 @@ impl Oracle for C19 {
     fn per_config(&self) -> bool {
         true
     }
-    fn admits(&self, _input: &str, src: &SyntaxNode) -> bool {
-        !imports(src).is_empty()
+    fn admits(&self, input: &str, src: &SyntaxNode) -> bool {
+        // an import protected by '@typstyle off' is reproduced verbatim (C07) and therefore
+        // legitimately keeps its order with reordering on; such inputs are outside this property
+        !input.contains("@typstyle off") && !imports(src).is_empty()
     }
     fn for_input<'a>(&'a self, input: &'a str, src: &'a SyntaxNode, subject: &'a dyn Subject) -> Checker<'a> {
         let iin = imports(src);
